@@ -3,8 +3,8 @@ import Pk.Proofs.MgrTruthEvA
 namespace Pk.Props.C06Reach
 open Pk.Mgr Pk.Props.MgrReach Pk.Proofs.MgrTruth Pk.Proofs.MgrTags
 
-theorem attrs_cdAll (convs : List String) (sets : List (String × IdSet)) (t : Tag) :
-    Attrs (cdAll convs sets t) = Attrs t := by
+theorem attrs_cdAll (all : Nat) (convs : List String) (sets : List (String × IdSet)) (t : Tag) :
+    Attrs (cdAll all convs sets t) = Attrs t := by
   unfold cdAll
   induction sets generalizing t with
   | nil => rfl
@@ -12,7 +12,7 @@ theorem attrs_cdAll (convs : List String) (sets : List (String × IdSet)) (t : T
     simp only [List.foldl_cons]
     rw [ih]
     split
-    · exact attrs_cdF _ _
+    · exact attrs_cdF _ _ _
     · rfl
 
 theorem fdt_of_data {x : Nat} (h : x &&& fData ≠ 0) : x &&& (fData ||| fTimeAbs ||| fTimeRel) ≠ 0 := by
@@ -32,10 +32,10 @@ theorem good_convertDone (s : St) (st : Started) (T T' g : Truth) (hg : Good s T
   have hr := hg.reach
   have hw := hr.tagsWF
   obtain ⟨s1, htags, hall, hnext, h1all, h1tags⟩ := convertDone_via s st sets held hj
-  have hget : ∀ n, sget s1.tags n = (sget s.tags n).map (cdAll s.convs sets) := by
+  have hget : ∀ n, sget s1.tags n = (sget s.tags n).map (cdAll s.all s.convs sets) := by
     intro n
     rw [h1tags]
-    exact sget_map (fun _ t => cdAll s.convs sets t) s.tags n
+    exact sget_map (fun _ t => cdAll s.all s.convs sets t) s.tags n
   have hsort : Sorted s1.tags := by
     apply sorted_of_keys_eq s.tags s1.tags _ hw
     rw [h1tags]; simp [Function.comp_def]
@@ -49,8 +49,9 @@ theorem good_convertDone (s : St) (st : Started) (T T' g : Truth) (hg : Good s T
       simp only [Option.map_some, Option.some.injEq] at h1
       subst h1
       rw [h1all]
-      rcases (mem_cdAll_unc _ _ _ _).1 hx with h | ⟨_, p, hp, _, hxp⟩
+      rcases cdAll_bound _ _ _ _ _ hx with h | h | ⟨p, hp, hxp⟩
       · exact hr.uncBounded n t hs x h
+      · exact h
       · exact hr.jobUnc.2.2.2.2.2 sets held hj p hp x hxp
   have hattr : ∀ n, (sget s1.tags n).map Attrs = (sget s.tags n).map Attrs := by
     intro n
@@ -66,12 +67,15 @@ theorem good_convertDone (s : St) (st : Started) (T T' g : Truth) (hg : Good s T
     rw [htags]
     refine sweep_pending s.tags s1 hsort hbnd htopo (h1all ▸ hr.nextLeAll) ?_ ?_ n id hd (h1all ▸ hid)
     · intro n t0 h0
-      refine ⟨cdAll s.convs sets t0, by rw [hget, h0]; rfl, Or.inl ?_⟩
-      obtain ⟨e1, e2, _, _⟩ := attrs_eq (attrs_cdAll s.convs sets t0)
+      refine ⟨cdAll s.all s.convs sets t0, by rw [hget, h0]; rfl, Or.inl ?_⟩
+      obtain ⟨e1, e2, _⟩ := attrs_eq (attrs_cdAll s.all s.convs sets t0)
       exact ⟨e1, e2⟩
-    · rintro n id ⟨t, ht, hf, p, hp, hpc, hid'⟩ _
-      refine ⟨cdAll s.convs sets t, by rw [hget, ht]; rfl, ?_⟩
-      exact (mem_cdAll_unc _ _ _ _).2 (Or.inr ⟨hf, p, hp, hpc, hid'⟩)
+    · rintro n id ⟨t, ht, p, hp, hpc, hB⟩ hid
+      rw [h1all] at hid
+      refine ⟨cdAll s.all s.convs sets t, by rw [hget, ht]; rfl, ?_⟩
+      rcases hB with ⟨hm, hid'⟩ | ⟨hsf, hne⟩
+      · exact cdAll_main _ _ _ _ _ hm p hp hpc hid' hid
+      · exact cdAll_sub _ _ _ _ _ hsf p hp hpc hne hid
   have hna : s.next ≤ s.all := hr.nextLeAll
   refine ⟨?_, ?_⟩
   · refine C06.inv_step_stable s _ st T T' hw hg.inv not_edits_convertDone hr.nextLeAll ?_
@@ -89,30 +93,37 @@ theorem good_convertDone (s : St) (st : Started) (T T' g : Truth) (hg : Good s T
     have htag : s.tag = true := hr.jobsWF.1.2 (by rw [hjt]; rfl)
     have mu := convertDone_masks s st sets held hj htag
     have hne : ∀ n r, Ev.convertDone ≠ .tagDone n r := fun n r h => by cases h
-    refine jobInv_mono s _ st T T' g hr hg.job hne jn' snap held' hjt ?_
-      (h1_of_not_edits s _ st jn' snap (not_edits_convertDone jn')) ?_
+    refine jobInv_mono s _ st T T' g hr hg.job hne jn' snap held' hjt ?_ ?_
     · intro id h1 h2
       rw [hnext] at h2; omega
-    · intro ot hot hd e1 e2 _ id hid hT
-      have hrefs := hr.factsOK.1 jn' snap held' ot hjt hot hd
+    · intro n' ot' hot' hg' hd'
+      obtain ⟨ot, hot, hg0, hd, ha⟩ := pre_of_not_edits s _ st n' snap ot' (not_edits_convertDone n') hot' hg' hd'
+      refine Or.inr ⟨n', ot, hot, hg0, hd, ha, ?_⟩
+      intro hA id hid hT
+      obtain ⟨r1, r2, e1, e2, _⟩ := attrs_eq hA
       have hlt : id < s.all := by omega
-      refine job_cover hot hrefs.1 hrefs.2 (hch jn' ot hot id hid hT) ?_ ?_ ?_ ?_
-      · rintro ⟨t, ht, hf, p, hp, hpc, hid'⟩
+      refine job_cover hot r1 r2 (hch n' ot hot id hid hT) ?_ ?_ ?_ ?_
+      · rintro ⟨t, ht, p, hp, hpc, hB⟩
         rw [hot] at ht; cases ht
-        have hup := mu p hp hpc id hid'
-        by_cases hm : ot.mfeat &&& fData = 0
-        · have hs0 : ot.sfeat &&& fData ≠ 0 := fun h => hf ⟨hm, h⟩
-          refine Or.inr (Or.inl ⟨?_, masksNE_of_mem (Or.inl hup)⟩)
-          intro h0
-          rw [← e2] at h0
-          rw [h0, Nat.zero_and] at hs0
-          exact hs0 rfl
-        · exact Or.inr (Or.inr (Or.inr ⟨hup, by unfold FDT; rw [← e1]; exact fdt_of_data hm⟩))
+        rcases hB with ⟨hm, hid'⟩ | ⟨hsf, hne'⟩
+        · exact Or.inr (Or.inr (Or.inr ⟨mu p hp hpc id hid', by unfold FDT; rw [← e1]; exact fdt_of_data hm⟩))
+        · refine Or.inr (Or.inl ⟨?_, ?_⟩)
+          · intro h0
+            rw [← e2] at h0
+            rw [h0, Nat.zero_and] at hsf
+            exact hsf rfl
+          · cases hp2 : p.2 with
+            | nil => exact absurd hp2 hne'
+            | cons x l => exact masksNE_of_mem (Or.inl (mu p hp hpc x (by rw [hp2]; simp)))
       · intro r _ hd'
         exact Or.inr (P r id hd' hlt)
       · intro r _ id2 hid2 hd'
         exact Or.inr ⟨id2, P r id2 hd' (by omega)⟩
-      · rintro ⟨n0, id0, t, _, _, p, hp, hpc, hid'⟩
-        exact masksNE_of_mem (Or.inl (mu p hp hpc id0 hid'))
+      · rintro ⟨n0, id0, t, _, p, hp, hpc, hB⟩
+        rcases hB with ⟨_, hid'⟩ | ⟨_, hne'⟩
+        · exact masksNE_of_mem (Or.inl (mu p hp hpc id0 hid'))
+        · cases hp2 : p.2 with
+          | nil => exact absurd hp2 hne'
+          | cons x l => exact masksNE_of_mem (Or.inl (mu p hp hpc x (by rw [hp2]; simp)))
 
 end Pk.Props.C06Reach
